@@ -75,8 +75,13 @@ pub fn run_history(make: &dyn Fn() -> Result<SpeechGenerator, Failure>, ops: &[O
                     _ => unreachable!(),
                 };
                 for _ in 0..n {
-                    let mut buf = vec![SENTINEL; fp + extra.min(2 * fp)];
-                    let r = match catch(|| g.generate_step(&mut buf)) {
+                    // the caller's buffer is any f64 slice: here a window starting 0..3 elements
+                    // into a larger vector (a ring buffer, an interleaved frame), so its address is
+                    // 8-byte aligned only
+                    let lead = (k + i) % 4;
+                    let mut backing = vec![SENTINEL; lead + fp + extra.min(2 * fp)];
+                    let (head, buf) = backing.split_at_mut(lead);
+                    let r = match catch(|| g.generate_step(&mut *buf)) {
                         Ok(r) => r,
                         Err(p) => fail!(p.signature(), "op #{} {:?}: generate_step panicked with a buffer of {} >= fperiod {}: {}", i, op, buf.len(), fp, p.msg),
                     };
@@ -90,6 +95,7 @@ pub fn run_history(make: &dyn Fn() -> Result<SpeechGenerator, Failure>, ops: &[O
                         if let Some(j) = (fp..buf.len()).find(|&j| !same(buf[j], SENTINEL)) {
                             fail!("step-writes-beyond-frame", "op #{} {:?}: generate_step returned {} but modified the caller's buffer at index {} (buffer of {})", i, op, r, j, buf.len());
                         }
+                        ensure!(head.iter().all(|x| same(*x, SENTINEL)), "step-writes-beyond-frame", "op #{} {:?}: generate_step modified the caller's vector BEFORE the slice it was given (slice starts at element {})", i, op, lead);
                         k += 1;
                         stepped_before_finish = true;
                     } else {
